@@ -9,14 +9,18 @@ CONSTANTS Depth,      \* operations per behaviour
           Script,     \* <<>> or a sequence of step kinds ("grow" = accepting submission, "submit", "clean",
                       \* "save", "load", "mark", "unmark", "subscribe", "any"): step i must be of kind Script[i].
                       \* With BFS this enumerates a scenario family exhaustively (all trees, all orders).
-          Lean        \* TRUE: at most one orphan and few duplicate candidates per state, so that random
+          Lean,       \* TRUE: at most one orphan and few duplicate candidates per state, so that random
                       \* simulation spends its steps on tree-shaping submissions
+          Ties        \* TRUE: states with several tips of maximal work are generated too.  C01 asks for *a* tip of
+                      \* maximal work, so the specification leaves the choice open; one behaviour is generated per
+                      \* choice and the replay follows the one the implementation takes (the others stop, without
+                      \* a verdict, at the step where the implementation chose another allowed tip: exp.maxtips)
 VARIABLE hist
 gvars == <<vars, hist>>
 
 Exp == [verdict |-> last.verdict, tip |-> tip, chain |-> ChainOf(tip), delta |-> last.delta,
         acc |-> acc, unsure |-> unsure, floorB |-> floorB, invalid |-> invalid,
-        best |-> Anc(tip), nsubs |-> Len(subs), ever |-> ever,
+        best |-> Anc(tip), nsubs |-> Len(subs), ever |-> ever, maxtips |-> MaxWorkTips(acc),
         savedWork |-> IF disk.has THEN CumWork(disk.tip) ELSE 0]
 
 Step(opname, b) == hist' = Append(hist, [op |-> opname, b |-> b, exp |-> Exp'])
@@ -47,13 +51,13 @@ Kind(k) == \/ Script = <<>>
 Grow(b) == parent[b] \in acc /\ b \notin acc
 GNext == /\ Len(hist) < Depth /\ ~Ended
          /\ \/ "submit" \in Ops /\ \E b \in Blocks : /\ Kind("submit") \/ (Kind("grow") /\ Grow(b))
-                                                     /\ Dict(b) /\ LeanOK(b) /\ Submit(b) /\ NoTie' /\ Step("submit", b)
+                                                     /\ Dict(b) /\ LeanOK(b) /\ Submit(b) /\ (Ties \/ NoTie') /\ Step("submit", b)
             \/ "clean" \in Ops /\ Kind("clean") /\ last.op # "clean" /\ Clean /\ Step("clean", 0)
             \/ "save" \in Ops /\ Kind("save") /\ last.op # "save" /\ Save /\ Step("save", 0)
             \/ "load" \in Ops /\ Kind("load") /\ Load /\ Step("load", 0)
             \/ "reload" \in Ops /\ Kind("reload") /\ Reload
             \/ "subscribe" \in Ops /\ Kind("subscribe") /\ Subscribe /\ Step("subscribe", 0)
-            \/ "mark" \in Ops /\ Kind("mark") /\ \E b \in Blocks : MarkOK(b) /\ Mark(b) /\ NoTie' /\ Step("mark", b)
+            \/ "mark" \in Ops /\ Kind("mark") /\ \E b \in Blocks : MarkOK(b) /\ Mark(b) /\ (Ties \/ NoTie') /\ Step("mark", b)
             \/ "mark" \in Ops /\ Kind("unmark") /\ \E b \in Blocks : Unmark(b) /\ Step("unmark", b)
 GSpec == GInit /\ [][GNext]_gvars
 
